@@ -174,7 +174,14 @@ func init() {
 				}
 				return nil, nil
 			}
-			res := m.CheckBody(loopBody.List, nil, func(e odEnv) orderdom.Value {
+			iter := loopBody.List
+			if fs, ok := loop.(*ast.ForStmt); ok && fs.Cond != nil {
+				// `for cond { body }` is `for { if !cond { break }; body }`
+				guard := &ast.IfStmt{If: fs.Cond.Pos(), Cond: &ast.UnaryExpr{OpPos: fs.Cond.Pos(), Op: token.NOT, X: fs.Cond},
+					Body: &ast.BlockStmt{Lbrace: fs.Cond.Pos(), List: []ast.Stmt{&ast.BranchStmt{TokPos: fs.Cond.Pos(), Tok: token.BREAK}}, Rbrace: fs.Cond.End()}}
+				iter = append([]ast.Stmt{guard}, iter...)
+			}
+			res := m.CheckBody(iter, nil, func(e odEnv) orderdom.Value {
 				has, mentioned := e.Bool["?has"]
 				if !mentioned {
 					has = true
